@@ -4,7 +4,7 @@ from checks.models import ALL_MODELS, TOL_BY_MODEL, EXTRA_ARGS
 
 CHECK = Check(
     "C03",
-    props_modules=["OW.Props.C03", "OW.Props.C03Bulk"],
+    props_modules=["OW.Props.C03", "OW.Props.C03Bulk", "OW.Props.C03Full"],
     pre_steps=[build_cabi],
     families=[Family("NDPAIR"), Family("ND", args=["prop=C03"], label="ND-c"),
               Family("CABI", rtol=1e-9, atol_scale=1e-12, tol_by_model=TOL_BY_MODEL, args=["models=" + ",".join(ALL_MODELS), "n=6"] + EXTRA_ARGS)],
@@ -21,10 +21,7 @@ CHECK = Check(
     ],
     assumptions=["views reachable by in-bounds slicing of roots with extents >= 1; operations in the domain of the reference semantics",
                  "two-array operations (applySlice, copyFrom, zipWithInto) between DIFFERENT storages on both sides (overlap = known finding KF-C03-overlap)"],
-    partial=["observational_equivalence_partial: whole-program equivalence (same observation list on Go-backed and C-backed roots, never oob-c) for "
-             "programs of slice/get/set/apply/applySlice/copyFrom/unroll/contiguous/extremum/zipWithInto and reshape/reshapeFast EXCEPT a successful "
-             "Reshape of a contiguous view with Start > 0 (its C-side result is a root view with non-zero start, outside the Reach vocabulary); "
-             "that step is covered one-step by rel_reshape / rel_reshape_write"],
+    partial=[],   # observational_equivalence (C03Full) supersedes the _partial versions of C03Bulk: no excluded case is left
 )
 
 META = dict(
